@@ -97,7 +97,10 @@ def _eval_all(cx, t: LTen, real_shape):
     s.set("timeout", 20000)
     for f in cx.pc:
         s.add(f)
-    if s.check() != z3.sat:
+    r = s.check()
+    if r == z3.unknown:
+        return "inconclusive"   # solver budget (machine under load): the sample says nothing, it is skipped - never a failure
+    if r != z3.sat:
         return None
     m = s.model()
     lead = [m.eval(lift(d), model_completion=True).as_long() for d in t.shape.lead]
@@ -283,7 +286,7 @@ def run(seed=0, n_each=3):
     if p.returncode != 0:
         return {"samples": 0, "failures": [f"primval failed: {p.stderr[-300:]}"], "ops": []}
     real = json.loads(p.stdout)
-    failures, ok = [], 0
+    failures, ok, skipped = [], 0, 0
     for (op, cx, r), rr, ri in zip(sym, real, real_in):
         if isinstance(r, Exception):
             failures.append(f"{op}: symbolic side raised {type(r).__name__}: {r}")
@@ -298,11 +301,14 @@ def run(seed=0, n_each=3):
                 ok += 1
             continue
         got = _eval_all(cx, r, rr["shape"])
+        if got == "inconclusive":
+            skipped += 1
+            continue
         if got is None or got == "shape-mismatch" or len(got) != len(rr["flat"]) or any(abs(x - y) > 1e-9 for x, y in zip(got, rr["flat"])):
             failures.append(f"{op}: contract and torch disagree on {json.dumps(ri['args'])[:200]}: {str(got)[:120]} vs {str(rr['flat'])[:120]}")
         else:
             ok += 1
-    return {"samples": ok, "failures": failures, "ops": sorted({op for op, _, _ in sym})}
+    return {"samples": ok, "failures": failures, "ops": sorted({op for op, _, _ in sym}), "skipped_inconclusive": skipped}
 
 
 def it_call_method(it, t, name, *args):
